@@ -24,9 +24,11 @@ CONSTANTS
   ClosedOrdered = TRUE
   DupClears = FALSE
   MaxDup = 1
-  AllowRepeat = TRUE
+  AllowRepeat = FALSE
   CancelIdempotent = TRUE
   RelayCancelIdempotent = TRUE
+  SubsBeforeAccept = TRUE
+  MaxAcc = 0
 INVARIANT TypeOK
 INVARIANT P_C05_WireTruth
 INVARIANT P_C05_ListPeers
